@@ -4,7 +4,7 @@ from autobean_refactor import token_store as ts
 
 CASES = {'quick': 4000, 'thorough': 100000}
 GATES = {
-    'quick': {'live_tokens_offered': 3000, 'evaluations': 50000, 'ops_multi_block_removed': 1500, 'ops_removed_ge_lf': 3000, 'histories': 3000},
+    'quick': {'live_tokens_offered': 3000, 'empty_range_splices': 2000, 'evaluations': 50000, 'ops_multi_block_removed': 1500, 'ops_removed_ge_lf': 3000, 'histories': 3000},
     'thorough': {'evaluations': 5000000, 'ops_multi_block_removed': 100000, 'histories': 90000},
 }
 RULE = ('case = one random history (40-200 ops; thorough up to 300) on a raw TokenStore with load factor 2..12 (thorough: ..50) '
@@ -81,6 +81,8 @@ def run_case(col, r, idx):
         if len(info['removed']) >= lf:
             col.count('ops_removed_ge_lf')
         tag = f'{op}{"(multi-block)" if multi else ""}'
+        if info.get('empty_range'):
+            col.count('empty_range_splices')
         if op == 'live':
             col.count('live_tokens_offered')
             if info.get('live_accepted'):
